@@ -88,5 +88,40 @@ META = {
   "design_ref": "DESIGN.md 6 C11",
   "technique": "TLC-generated scenarios replayed into the real CLI (repeated execution); TLC trace validation of style predicates",
  },
+ "C02": {
+  "text": 'TLC enumerates evaluation files from MC_Eval (every entry kind alone and in pairs, should-totals, duplicate dates, record dates relative to the clock) and checks the algebraic laws of KEval (diff+should=total, records stay separate); every file is evaluated by the real CLI (`total` decimal and h/m, `json`, `print --with-totals`, with/without --now) and TLC judges every recorded value against KEval.',
+  "design_ref": "DESIGN.md 6 C02",
+  "technique": 'TLA+ evaluation model (KEval) + TLC-generated files replayed into `klog total/json/print`; TLC trace validation of the parsed outputs',
+ },
+ "C12": {
+  "text": 'TLC enumerates files whose dates come from a pool around ISO-week-year/month/quarter/year boundaries and checks at spec level that report buckets partition the records; `klog report` for all five aggregations with --diff and with --fill, `total`, `today` and `print --with-totals` are run through the real CLI and TLC judges every row (bucket label from KCalendar, values, order, empty filled rows, grand total).',
+  "design_ref": "DESIGN.md 6 C12",
+  "technique": 'TLA+ KEval/KCalendar report model + TLC-generated files replayed into the CLI; TLC trace validation of parsed tables',
+ },
+ "C13": {
+  "text": "TLC generates, for six reference dates, a 14-record tagged file (ascending and reversed) and ~110 queries each (every date clause with boundary dates, period shapes, relative shortcuts, tags with/without values, entry types, combinations, sort) together with their semantic query; spec-level law: combined clauses = intersection. The real CLI's `klog json <flags>` result is judged by TLC against KEval!Filter for every query.",
+  "design_ref": "DESIGN.md 6 C13",
+  "technique": 'TLA+ filter semantics (KEval.Filter) + TLC-generated queries replayed into `klog json`; TLC trace validation',
+ },
+ "C14": {
+  "text": 'TLC enumerates all short summaries over a 14-character tag alphabet (and redundancy patterns) in record and entry summaries; `klog json` tags arrays and `klog tags --values --count --decimal` are judged by TLC against the character-level tag recogniser KRecord and the tag totals of KEval.',
+  "design_ref": "DESIGN.md 6 C14",
+  "technique": 'TLA+ tag recogniser (KRecord) + TLC enumeration replayed into `klog json`/`klog tags`; TLC trace validation',
+ },
+ "C17": {
+  "text": 'TLC explores every minute of the day x roundings x date selection x start/stop/switch x layouts of open ranges x kinds of days in the abstract command model (quick: each minute with rotating rounding/layout/day); every transition is replayed through the real CLI with the clock hook and TLC judges the written time, the yesterday fallback, failures for unrepresentable times and absence of panics; `total --now`/`json --now` are judged against KEval!CloseAll.',
+  "design_ref": "DESIGN.md 6 C17",
+  "technique": 'TLA+ command model (KCli.AutoOff/Model) explored by TLC over all minutes, replayed into the real CLI with a controlled clock (hook H4); TLC trace validation',
+ },
+ "C18": {
+  "text": 'Code to spec: the outputs of nine evaluation commands under six styling configurations (dark, light, basic, no_colour, NO_COLOR, --no-style) are recorded from the real CLI for TLC-generated files; TLC judges that the outputs stripped of SGR sequences are identical, that unstyled outputs contain no escape sequences and that all rows of tabular outputs have the same width. The colour tables are not modelled.',
+  "design_ref": "DESIGN.md 6 C18",
+  "technique": 'TLC-generated files replayed into the CLI under every colour scheme; TLC trace validation of SGR-stripped equality and row widths',
+ },
+ "C20": {
+  "text": "`klog json` output for every TLC-generated evaluation file and query is decoded by an independent JSON parser (Python) and judged by TLC field by field against the JSON view defined over KParse/KEval/KRecord (dates, summaries, tags, should-total, entry types, notation of start/end, minute values, arithmetic relations); for every generated invalid document the error objects are judged against the parser's errors.",
+  "design_ref": "DESIGN.md 6 C20",
+  "technique": 'TLA+ JSON view over KParse/KEval + TLC-generated inputs replayed into `klog json`, decoded independently; TLC trace validation',
+ },
 }
 HOOK_COMMITS = ["022feb6", "3577f1d", "054219c"]
